@@ -15,6 +15,7 @@ import time
 sys.path.insert(0, os.path.dirname(os.path.abspath(__file__)))
 import common as C
 import solvers as S
+import loopmon as LM
 
 
 _ARGSHAPE = {'psigradpsi': 'v', 'psi': 'v', 'gradpsi': 'v', 'gradL': 'vv', 'prox': 'svv'}
@@ -92,7 +93,11 @@ class Panoc:
         for i, (o, h, d) in enumerate(zip(ops, hout, dout)):
             hs = S.strip_events(h)           # PANOC: ε of the early NotFinite return is +inf in model and code
             d = d.strip()
-            if hs != d and S.Op.parse(o).nat('nanat') and nonpure(S.parse_out(h)['events']):
+            if hs != d and h.startswith('S exception') and LM.expected_exception(self.name, o, h):
+                res['skipped'] += 1          # declared throwing class the model does not follow
+                continue
+            if hs != d and not h.startswith('S exception') and S.Op.parse(o).nat('nanat') and \
+                    nonpure(S.parse_out(h)['events']):
                 res['skipped'] += 1
                 continue
             if hs != d:
@@ -164,11 +169,13 @@ class ModSolver:
             if hs == d:
                 continue
             evs = [sec.split()[1:] for sec in h.split(' ; ') if sec.strip().startswith('EV ')]
-            if S.Op.parse(o).nat('nanat') and nonpure(evs):
+            if S.Op.parse(o).nat('nanat') and nonpure(evs) and not h.startswith('S exception'):
                 res['skipped'] += 1
                 continue
-            if h.startswith('S exception') and not d.strip().startswith('S exception'):
-                # a direction / problem provider threw inside the real solver: outside the models
+            if h.startswith('S exception') and not d.strip().startswith('S exception') and \
+                    LM.expected_exception(self.name, o, h):
+                # a provider that throws by contract (declared class): outside the models.  Any other exception
+                # of the real solver is a mismatch.
                 res['skipped'] += 1
                 continue
             res['bad'] += 1
@@ -189,16 +196,22 @@ class ModSolver:
         return bool(f and f(op))
 
 
+REGISTRY_ERRORS = []
+
+
 def registry():
-    """Solvers with a loop model, in order; a missing module (not built yet) is skipped."""
+    """Solvers with a loop model, in order.  A module that exists but cannot be imported is a BROKEN tie of every
+    check that uses the registry (REGISTRY_ERRORS is added to `broken` by run_solvers), not a silent skip."""
     out = [Panoc()]
     for name, suffix in (('zerofpr', 'Zerofpr'), ('pantr', 'Pantr'), ('fista', 'Fista'), ('ocp', 'Ocp')):
         if os.path.exists(os.path.join(C.VERIF, 'checks', f'loop_{name}.py')) and \
                 os.path.exists(os.path.join(C.VERIF, 'checks', f'.loop_{name}.ready')):
             try:
                 out.append(ModSolver(name, suffix))
-            except Exception as e:      # an unfinished module must not take the check down
-                print(f'[loops] loop_{name} not usable: {e!r}')
+            except Exception as e:      # the check goes on with the others and reports this one as broken
+                msg = f'[{name}] checks/loop_{name}.py cannot be imported: {e!r} — solver not checked'
+                if msg not in REGISTRY_ERRORS:
+                    REGISTRY_ERRORS.append(msg)
     return out
 
 
@@ -216,6 +229,7 @@ def run_solvers(rep, broken, sols, monitor, tier, *, n, nsweep, nontrivial=None,
     found_input = False
     distinct = distinct if distinct is not None else set()
     per_solver = rep.cov.setdefault('per_solver', {})
+    broken.extend(e for e in REGISTRY_ERRORS if e not in broken)
     for s in sols:
         t0 = time.time()
         exe, log = s.build()
@@ -238,11 +252,15 @@ def run_solvers(rep, broken, sols, monitor, tier, *, n, nsweep, nontrivial=None,
                           f'first: {r["first"][0] if r["first"] else "?"}')
         st = {}
         bad = 0
+        exc = rep.cov.setdefault('exceptions_of_the_real_solver', {}).setdefault(s.name, {})
+
+        def exc_bump(k, n=1, exc=exc):
+            exc[k] = exc.get(k, 0) + n
         for o, h in zip(ops, hout):
-            if s.skip_monitor(o):
+            if s.skip_monitor(o) and not h.startswith('S exception'):
                 continue
             try:
-                m = monitor(s, o, h, st)
+                m = LM.exception_monitor(s.name, o, h, exc_bump) or monitor(s, o, h, st)
             except Exception as e:
                 m = f'monitor crashed on {h[:80]!r}: {e!r}'
             if m:
@@ -290,7 +308,7 @@ def search_failing_input(rep, sols, monitor, tier, *, n, nsweep, rounds=6, label
                 if s.skip_monitor(o):
                     continue
                 try:
-                    m = monitor(s, o, h, st)
+                    m = LM.exception_monitor(s.name, o, h) or monitor(s, o, h, st)
                 except Exception as e:
                     m = f'monitor crashed on {h[:80]!r}: {e!r}'
                 if m:
